@@ -40,6 +40,17 @@ Eff(t, s, c) == CASE c.op = "set"    -> SetTree(t, s, c.q, c.v, c.nc, c.no)
                   [] OTHER -> t
 Effs(t, s, ops) == IF ops = <<>> THEN t ELSE Effs(Eff(t, s, Head(ops)), s, Tail(ops))
 
+\* the effect of a command on the sender's subscription parameters (S), and whether the client prunes its mirror after it; the parts of a
+\* PR_COMMAND_BATCH ("seq") count in order
+RECURSIVE SubsEffs(_, _)
+SubsEff(S, c) == CASE c.op = "subscribe"   -> [sp \in {c.subs[i].sp : i \in DOMAIN c.subs} |->
+                                                  LET i == CHOOSE j \in DOMAIN c.subs : c.subs[j].sp = sp IN [cl |-> c.subs[i].cl, f |-> c.subs[i].f]] @@ S
+                   [] c.op = "unsubscribe" -> Restrict(S, DOMAIN S \ {c.sp})
+                   [] c.op = "seq"         -> SubsEffs(S, c.ops)
+                   [] OTHER -> S
+SubsEffs(S, ops) == IF ops = <<>> THEN S ELSE SubsEffs(SubsEff(S, Head(ops)), Tail(ops))
+Prunes(c) == c.op \in {"unsubscribe", "getdata"} \/ (c.op = "seq" /\ \E i \in DOMAIN c.ops : c.ops[i].op \in {"unsubscribe", "getdata"})
+
 \* the change the harness observed: d = [set |-> <<<<path, payload>>, ...>>, del |-> <<path, ...>>]
 ApplyDelta(t, d) == LET dels == Range(d.del)
                         setp == {d.set[i][1] : i \in DOMAIN d.set}
@@ -62,14 +73,10 @@ TCmd == /\ l <= N /\ TraceLog[l].e = "cmd"
                s == c.s
                t2 == ApplyDelta(tree, ln.d)
                cn2 == IF c.op = "connect" THEN conn \cup {s} ELSE IF c.op = "disconnect" THEN conn \ {s} ELSE conn
-               S2 == CASE c.op = "subscribe"   -> [subs EXCEPT ![s] = [sp \in {c.subs[i].sp : i \in DOMAIN c.subs} |->
-                                                                           LET i == CHOOSE j \in DOMAIN c.subs : c.subs[j].sp = sp IN [cl |-> c.subs[i].cl, f |-> c.subs[i].f]] @@ @]
-                       [] c.op = "unsubscribe" -> [subs EXCEPT ![s] = Restrict(@, DOMAIN @ \ {c.sp})]
-                       [] c.op \in {"connect", "disconnect"} -> [subs EXCEPT ![s] = Empty]
-                       [] OTHER -> subs
+               S2 == IF c.op \in {"connect", "disconnect"} THEN [subs EXCEPT ![s] = Empty] ELSE [subs EXCEPT ![s] = SubsEff(@, c)]
                m2 == [x \in Names |-> IF x \notin cn2 \/ (x = s /\ c.op = "connect") THEN Empty
                                        ELSE LET m == ApplyAll(x, mirror[x], Updates(ln, x))
-                                            IN IF x = s /\ c.op \in {"unsubscribe", "getdata"} THEN Prune(m, S2[x]) ELSE m]
+                                            IN IF x = s /\ Prunes(c) THEN Prune(m, S2[x]) ELSE m]
            IN /\ tree' = t2 /\ conn' = cn2 /\ subs' = S2 /\ mirror' = m2
               /\ unclaimed' = [x \in Names |-> Range(Get(ln.unc, x, <<>>))]
               /\ asdoc' = (asdoc /\ (ln.calc => t2 = Eff(tree, s, c)))
